@@ -31,7 +31,7 @@ Theorem model_sig_matches_generated_lemma :
 Proof.
   pose proof sig_tie_ok_true as H. unfold sig_tie_ok in H.
   apply andb_true_iff in H. destruct H as [H1 H2]. split.
-  - intros o T Hin. rewrite forallb_forall in H1. specialize (H1 (o, T) Hin). simpl in H1.
+  - intros o T Hin. rewrite forallb_forall in H1. specialize (H1 (o, T) Hin). cbn [fst snd] in H1.
     revert H1. destruct (model_sig o) as [T'|]; intros H1; [|discriminate]. apply ty_eqb_eq in H1. subst. reflexivity.
   - intros o. rewrite forallb_forall in H2. specialize (H2 o (all_prims_complete o)).
     apply existsb_exists in H2. destruct H2 as [[o' T] [Hin Heq]]. simpl in Heq.
